@@ -72,6 +72,7 @@ type FS struct {
 	nWrite int
 	nRead  int
 	nOpen  int
+	nStat  int  // stat/lstat calls since the last ResetLog (eacces-stat)
 	full   bool // a sticky ENOSPC fired
 
 	crashed  bool
@@ -178,6 +179,7 @@ func (f *FS) ResetLog() {
 	defer f.mu.Unlock()
 	f.base = len(f.ops)
 	f.nWrite, f.nRead, f.nOpen = 0, 0, 0
+	f.nStat = 0
 }
 
 // enter is called at the start of every call with f.mu held. It refuses service
@@ -500,6 +502,12 @@ func (f *FS) stat(kind, name string) (fs.FileInfo, error) {
 	defer f.mu.Unlock()
 	r, errno := f.walk(name)
 	p := f.enter(Op{Kind: kind, Path: r.path})
+	if errno == 0 {
+		if c := f.errFault("eacces-stat", &f.nStat); c != nil {
+			p.Fault = "eacces-stat"
+			errno = syscall.EACCES
+		}
+	}
 	if errno == 0 && r.n == nil {
 		errno = r.missing()
 	}
